@@ -59,7 +59,7 @@ def check_kind(obj):
     return 'unknown'
 
 
-def build_program(prog):
+def build_program(prog, residue_check=True):
     """Returns dict(canon, flags, sem, info)."""
     from sc3.synth.synthdef import SynthDef
     from sc3.synth import ugen as ugn
@@ -162,6 +162,8 @@ def build_program(prog):
             rec['out_mode'] = rec.get('out_mode', {})
             rec['out_mode'][i] = mode
             return []
+        if t == 'raise':
+            raise RuntimeError('injected failure in graph function')
         raise ValueError(t)
 
     def body(*ctl):
@@ -190,11 +192,11 @@ def build_program(prog):
         out['canon'] = 'ERR ' + type(ex).__name__
         out['flags'] = rec['flags']
         out['detail'] = str(ex)[:200]
-        out['residue'] = residue()
+        out['residue'] = residue() if residue_check else None
         if rec['inexact']:
             out['skip'] = 'inexact-constant'
         return out
-    out['residue'] = residue()
+    out['residue'] = residue() if residue_check else None
     if rec['inexact']:
         out['skip'] = 'inexact-constant'
     elif rec['negzero']:
@@ -202,8 +204,8 @@ def build_program(prog):
     try:
         raw = bytes(sd.as_bytes())
     except Exception as ex:
-        out['canon'] = 'ERR ' + type(ex).__name__
-        out['detail'] = 'writer: ' + str(ex)[:200]
+        out['canon'] = 'ERR WRITE'
+        out['detail'] = f'writer: {type(ex).__name__}: ' + str(ex)[:200]
         return out
     try:
         defs = scgf.parse(raw)
@@ -224,6 +226,11 @@ def build_program(prog):
                         + '/' + ' '.join(str(r) for r in u['outs']) for u in d['ugens'])
                     + ' B=' + raw.hex())
     out['pnames'] = d['pnames']
+    # where each constructor event's unit ended up (object identity), for ordering oracles
+    kids = list(sd._children)
+    out['positions'] = {str(ei): [i for i, c in enumerate(kids) if c is obj] for ei, obj in rec['objs'].items()}
+    out['parsed'] = {'name': d['name'], 'nparams': len(d['params']),
+                     'outs': [[u['rate'], len(u['ins']) - 1, u['cls']] for u in d['ugens'] if u['cls'] in ('Out', 'ReplaceOut')]}
     out['name'] = d['name']
     out['nunits'] = len(d['ugens'])
     out['classes'] = sorted({u['cls'] for u in d['ugens']})
